@@ -3,11 +3,31 @@ import argparse
 import importlib
 import json
 import os
+import signal
 import sys
+import threading
+import time
 import traceback
 
 sys.path.insert(0, os.path.dirname(os.path.dirname(os.path.abspath(__file__))))
 from harness import common  # noqa: E402
+
+
+class BudgetExceeded(BaseException):
+    """raised in the main thread when the whole check has used up its wall-clock budget (a BaseException, so that
+    the per-call `except Exception` handlers of the checks cannot mistake it for a failure of the implementation)"""
+
+
+def arm_watchdog(seconds):
+    def on_signal(signum, frame):
+        where = "".join(traceback.format_stack(frame)[-6:])
+        raise BudgetExceeded("no verdict after %d s; the main thread was in:\n%s" % (seconds, where))
+
+    def sleeper():
+        time.sleep(seconds)
+        os.kill(os.getpid(), signal.SIGUSR1)
+    signal.signal(signal.SIGUSR1, on_signal)
+    threading.Thread(target=sleeper, daemon=True).start()
 
 
 def main():
@@ -24,8 +44,17 @@ def main():
             rp = json.load(f)
         rc = mod.replay(ctx, rp)
         sys.exit(rc)
+    # a call into the implementation that never returns (most calls are individually guarded, a few cannot be:
+    # threads, scipy callbacks) must not leave the check without a verdict
+    arm_watchdog(int(os.environ.get("VERIF_BUDGET", "2700" if a.tier == "quick" else "14400")))
     try:
         mod.run(ctx)
+    except BudgetExceeded as e:
+        ctx.proof_failures.append({"theorem": "(check did not finish within its time budget)", "error": str(e)[-1500:]})
+        common.write_evidence(ctx, getattr(mod, "LEVEL", "proof"))
+        rc = common.verdict(ctx)
+        sys.stdout.flush()
+        os._exit(rc)          # worker threads stuck in the implementation must not keep the process alive
     except Exception as e:  # machinery failure is a broken tie, never a silent pass
         ctx.proof_failures.append({"theorem": "(check machinery)", "error": "%s: %s" % (type(e).__name__, e),
                                    "trace": traceback.format_exc()[-1500:]})
